@@ -4,8 +4,8 @@ Everything here is an ASSUMED model of a *library* (fontTools.feaLib.ast, Python
 
   * `c17_Node`    one heap class for every feaLib AST node; `kind` is the Python class name (type(n).__name__),
                   the other fields are the attributes the feaLib constructors store (same names).
-  * `c17_FeaFile` a FeatureFile: `statements`, plus the abstract field `featureTags` (tags of the top-level
-                  FeatureBlocks) computed from the heap.
+  * `c17_FeaFile` a FeatureFile: `statements`, plus the abstract field `featureTags` = {s.name | s in statements,
+                  s a FeatureBlock}, a DEFINED set term over the heap.
   * `fea_shim(...)` a stand-in for the module global `ast` of the writer modules (`ufo2ft.featureWriters.ast`
                   re-exports every feaLib class).  Class attributes resolve to constructor / isinstance models that are
                   private to these contracts (no global registration, so other properties' models are never shadowed).
@@ -110,15 +110,17 @@ cls(
 )
 
 
+def _tags_of(stm, kind, name):
+    """{name[s] | s in stm, kind[s] == 'FeatureBlock'} as a set term: the DEFINITION of the abstract field featureTags"""
+    t = z3.Const("c17_ft_t", z3.StringSort())
+    i = z3.Int("c17_ft_i")
+    return z3.Lambda([t], z3.Exists([i], z3.And(i >= 0, i < z3.Length(stm), z3.Select(kind, stm[i]) == z3.StringVal("FeatureBlock"), z3.Select(name, stm[i]) == t)))
+
+
 def _feature_tags_derived(ex, st, self):
-    """featureTags as a function of (statements, kind-of-node, name-of-node); its defining equation
-    {s.name | s in statements, s.kind == 'FeatureBlock'} is not needed by any obligation, so the symbol stays uninterpreted
-    (the native view below is the definition the conformance check and the run-time cross-check use)"""
+    """featureTags = the tags of the top-level feature blocks, as a defined set term (the native view below is the same definition)"""
     stm = ex.read_field(st, self, "statements").term
-    kind = ex.field_array(st, NODE, "kind")
-    name = ex.field_array(st, NODE, "name")
-    f = z3.Function("c17_featureTags", stm.sort(), kind.sort(), name.sort(), Set(STR).sort())
-    return Val(Set(STR), f(stm, kind, name))
+    return Val(Set(STR), _tags_of(stm, ex.field_array(st, NODE, "kind"), ex.field_array(st, NODE, "name")))
 
 
 cls(
@@ -390,10 +392,7 @@ CLASSES[NODE].views["text0"] = _snap("text")
 
 def _feature_tags0(ex, st, self):
     stm = z3.Select(pre_array(ex, FEAFILE, "statements", _NODES), lift(self))
-    kind = pre_array(ex, NODE, "kind", STR)
-    name = pre_array(ex, NODE, "name", STR)
-    f = z3.Function("c17_featureTags", stm.sort(), kind.sort(), name.sort(), Set(STR).sort())
-    return Val(Set(STR), f(stm, kind, name))
+    return Val(Set(STR), _tags_of(stm, pre_array(ex, NODE, "kind", STR), pre_array(ex, NODE, "name", STR)))
 
 
 CLASSES[FEAFILE].derived["featureTags0"] = _feature_tags0
